@@ -329,6 +329,10 @@ func (p *ReverseProxy) ServeHTTP(rw http.ResponseWriter, req *http.Request) {
 		return
 	}
 
+	// a default a filter pre-set on the writer (Cache-Control) gives way to the upstream's own value
+	for k := range res.Header {
+		rw.Header().Del(k)
+	}
 	copyHeader(rw.Header(), res.Header)
 
 	// The "Trailer" header isn't included in the Transport's response,
